@@ -1,14 +1,13 @@
 SPECIFICATION Spec
 CONSTANTS
   MaxPerFamily = 2
-  Patience = 3
-  LateAfter = 0
+  Patience = 4
+  LateAfter = 2
   InlineLast = FALSE
 INVARIANT SucceedsIffSomeAccepts
 INVARIANT WinnerAccepted
 INVARIANT HonestFailure
 INVARIANT OrderOK
 INVARIANT QuickSuccess
-INVARIANT Emit
 PROPERTY Terminates
 CHECK_DEADLOCK FALSE
